@@ -25,7 +25,11 @@ def _lease_extension(ctx):
     from props.C05 import C05a, ParseModifications
     a, b = C05a(ctx), ParseModifications(ctx, 2)
     a.id, b.id = 'C03.f-extension-duration', 'C03.f-parse-modifications'
-    return [a, b]
+    # ... counted from the moment the request was received (a base instant taken earlier shortens the lease by the age of the stream)
+    from props.C05 import HandlerBaseInstant
+    c, d = HandlerBaseInstant(ctx, False), HandlerBaseInstant(ctx, True)
+    c.id, d.id = 'C03.g-extension-base-instant-unary', 'C03.g-extension-base-instant-streaming'
+    return [a, b, c, d]
 
 
 def kani_harnesses(cfg):
